@@ -245,3 +245,34 @@ def copyFromSlice {α} (dst : List α) (a b : Int) (src : List α) : Option (Lis
   else none
 
 end Rt
+
+/-! builder V: loops that redraw from a random generator run on a fuel (`none` once it is used up, as for a panic);
+`(lo..hi).any(f)` with a body that may panic; `iter().rposition(p)`. -/
+namespace Rt
+
+/-- `loop` / `while`: `step` answers `Sum.inl s'` (go on with the loop-carried variables `s'`) or `Sum.inr b`
+(leave the loop with `b`); at most `fuel` steps -/
+def loopM {σ β} : Nat → (σ → Option (σ ⊕ β)) → σ → Option β
+  | 0, _, _ => none
+  | k + 1, step, s =>
+    match step s with
+    | none => none
+    | some (Sum.inl s') => loopM k step s'
+    | some (Sum.inr b) => some b
+
+/-- `(lo..hi).any(f)`: evaluated left to right, stops at the first `true`; `none` = a panic inside `f` -/
+def rangeAnyM (lo hi : Int) (f : Int → Option Bool) : Option Bool := go (hi - lo).toNat lo
+where
+  go : Nat → Int → Option Bool
+    | 0, _ => some false
+    | n + 1, i =>
+      match f i with
+      | none => none
+      | some true => some true
+      | some false => go n (i + 1)
+
+/-- `iter().rposition(p)`: the index of the last element that satisfies `p` -/
+def rposition {α} (p : α → Bool) (l : List α) : Option Int :=
+  (((List.range l.length).filter (fun i => match l[i]? with | some a => p a | none => false)).getLast?).map Int.ofNat
+
+end Rt
